@@ -255,7 +255,8 @@ func check(c Case) error {
 	o := pc.Obs
 	if o != nil {
 		o.Add("renders", len(snaps)-1)
-		o.Add("rw", pc.Workers*maxi(1, mini(pc.Readers, len(pc.Inputs))))
+		o.Add("rw", maxi(pc.Workers, 2)*maxi(1, mini(pc.Readers, len(pc.Inputs))))
+		o.Label(pc.Workers == 0, "workers-unset(default)")
 		act, full := 0, 0
 		for _, s := range snaps[:len(snaps)-1] {
 			if s.active > 0 {
@@ -366,6 +367,10 @@ func gen(t *rapid.T) Case {
 	c.SampleDelay = mk("sd", per/2+2)
 	c.P.ConsumeDelay = nil
 	c.RenderDelay = mk("rd", rapid.SampledFrom([]int{10, 1000, 30000}).Draw(t, "rdBase"))
+	if rapid.IntRange(0, 15).Draw(t, "defaultWorkers") == 7 {
+		// Workers unset (`--workers 0`): the extractor starts its default number of workers
+		c.P.Workers = 0
+	}
 	return c
 }
 
